@@ -260,9 +260,10 @@ Definition set_trailers (r : srec) : srec :=
 Definition add_data (len fcl : Z) (r : srec) : srec :=
   mk_srec (s_wrapper r) (s_cancel r) (s_headers r) (s_trailers r) (s_hev r) (s_tev r) (s_wev r)
           (if fcl =? 0 then s_queue r else s_queue r + 1) (s_eof r) (s_drecv r + len).
-(* Buffer.eof(): the marker is queued and _eof set *)
+(* Stream.__ended__: buffer.eof() (the marker is queued and _eof set), then trailers_received.set()
+   (no trailers can follow the end of a stream; recv_trailers then returns [] if none came) *)
 Definition set_eof (r : srec) : srec :=
-  mk_srec (s_wrapper r) (s_cancel r) (s_headers r) (s_trailers r) (s_hev r) (s_tev r) (s_wev r)
+  mk_srec (s_wrapper r) (s_cancel r) (s_headers r) (s_trailers r) (s_hev r) true (s_wev r)
           (s_queue r + 1) true (s_drecv r).
 
 (* ---- handler operations *)
